@@ -430,6 +430,7 @@ fn cones(ir: &[IrNode], ins: &[IOStatus], p: usize) -> Option<Cones> {
     let mut hidden = vec![];
     let mut own = vec![];
     let mut input_id = 0;
+    let mut shared_inputs: std::collections::HashSet<usize> = std::collections::HashSet::new();
     for (i, n) in ir.iter().enumerate() {
         let mut v: BTreeSet<usize> = BTreeSet::new();
         let mut h = false;
@@ -445,8 +446,15 @@ fn cones(ir: &[IrNode], ins: &[IOStatus], p: usize) -> Option<Cones> {
                 h = match st {
                     IOStatus::Public => false,
                     IOStatus::Party(o) => *o as usize != p,
-                    IOStatus::Shared => true,
+                    IOStatus::Shared => {
+                        shared_inputs.insert(i);
+                        true
+                    }
                 };
+            }
+            // a pre-shared input is a tuple of three shares; party p holds shares p and p+1 (mod 3)
+            Operation::TupleGet(j) if shared_inputs.contains(&(n.deps[0] as usize)) => {
+                h = !share_held(p, *j);
             }
             Operation::PRF(iv, _) | Operation::PermutationFromPRF(iv, _) => {
                 let k = ir_key_of(ir, n.deps[0] as usize)?;
@@ -476,6 +484,11 @@ fn cones(ir: &[IrNode], ins: &[IOStatus], p: usize) -> Option<Cones> {
         own.push(o);
     }
     Some(Cones { vars, hidden, own })
+}
+
+/// party p holds shares p and p+1 (mod 3) of a replicated sharing
+fn share_held(p: usize, j: u64) -> bool {
+    j as usize == p || j as usize == (p + 1) % 3
 }
 
 fn flatten(ir: &[IrNode], n: usize, neg: bool, ty: &Type, out: &mut Vec<(bool, usize)>) {
@@ -583,6 +596,20 @@ fn discipline_with(ir: &[IrNode], ins: &[IOStatus], p: usize, recipient: bool) -
     Ok(Certificate { pivoted, computable, reveals })
 }
 
+fn shared_input_nodes(ir: &[IrNode], ins: &[IOStatus]) -> Vec<usize> {
+    let mut v = vec![];
+    let mut input_id = 0;
+    for (i, n) in ir.iter().enumerate() {
+        if let Operation::Input(_) = &n.op {
+            if matches!(ins[input_id], IOStatus::Shared) {
+                v.push(i);
+            }
+            input_id += 1;
+        }
+    }
+    v
+}
+
 /// the compiled graph as `List CCV.Mask.Node`, classified for observer p
 fn export_mask(ir: &[IrNode], ins: &[IOStatus], p: usize) -> Option<(String, String, String)> {
     let mut ty_tags: Vec<String> = vec![];
@@ -638,6 +665,12 @@ fn export_mask(ir: &[IrNode], ins: &[IOStatus], p: usize) -> Option<(String, Str
                 deps.clear();
                 format!(".tapeK {}", 900_000_000 + i)
             }
+            // share j of a pre-shared input: a leaf the observer holds (own) or does not hold (hidden)
+            Operation::TupleGet(j) if matches!(ir[n.deps[0] as usize].op, Operation::Input(_)) && matches!(ir[n.deps[0] as usize].ty, Type::Tuple(_)) && c.hidden[n.deps[0] as usize] && shared_input_nodes(ir, ins).contains(&(n.deps[0] as usize)) => {
+                let src = n.deps[0] as usize;
+                deps.clear();
+                if share_held(p, *j) { format!(".own {}", 1000 + 3 * src + *j as usize) } else { format!(".hid {}", 1000 + 3 * src + *j as usize) }
+            }
             Operation::NOP if same(n.deps[0]) => ".nop".to_owned(),
             Operation::Add if same(n.deps[0]) && same(n.deps[1]) => ".add".to_owned(),
             Operation::Subtract if same(n.deps[0]) && same(n.deps[1]) => ".sub".to_owned(),
@@ -670,11 +703,7 @@ pub fn discipline_stream(run: &mut Run) {
             _ => continue,
         };
         let ins: Vec<IOStatus> = fam.in_types.iter().map(|_| gen_status(&mut rng)).collect();
-        if ins.iter().any(|s| matches!(s, IOStatus::Shared)) {
-            // the two share slots a party holds of a shared input are part of its view but are not
-            // messages of this graph: such configurations are left to the enumeration stream
-            continue;
-        }
+        // pre-shared inputs: the two shares the observer holds are its own inputs, the third is hidden
         let outs = gen_outputs(&mut rng);
         let mode = rng.below(3) as u8;
         let cc = match catch(|| compile(&fam.ctx, &ins, &outs, mode)) {
@@ -1276,9 +1305,6 @@ pub fn gen(run: &mut Run, out_dir: &str) {
             _ => continue,
         };
         let ins: Vec<IOStatus> = fam.in_types.iter().map(|_| gen_status(&mut rng)).collect();
-        if ins.iter().any(|s| matches!(s, IOStatus::Shared)) {
-            continue;
-        }
         let outs = gen_outputs(&mut rng);
         let mode = rng.below(3) as u8;
         let cc = match catch(|| compile(&fam.ctx, &ins, &outs, mode)) {
@@ -1294,7 +1320,7 @@ pub fn gen(run: &mut Run, out_dir: &str) {
         }
         for p in 0..3usize {
             let recipient = outs.iter().any(|o| *o == IOStatus::Party(p as u64));
-            if !ins.iter().any(|s| matches!(s, IOStatus::Party(o) if *o as usize != p)) {
+            if !ins.iter().any(|s| matches!(s, IOStatus::Shared) || matches!(s, IOStatus::Party(o) if *o as usize != p)) {
                 continue;
             }
             // only families for which the discipline is known to be provable are in the corpus
